@@ -20,13 +20,16 @@ theorem startE_ctl (e : Env) (t : Tid) (op : EOp) : (startE e t op).ctl = e.ctl 
   | revive w => rfl
   | send w al => rfl
   | tick d => rfl
+  | shutdown w => rfl
   | deliver k fail =>
     simp only [startE]
     split
     · rfl
     · split
       · rfl
-      · split <;> rfl
+      · split
+        · rfl
+        · split <;> rfl
 
 theorem estep_ctl {e e' : Env} {t : Tid} (h : estep e t = some e') : e'.ctl = e.ctl := by
   unfold estep at h
